@@ -233,6 +233,8 @@ pub fn check_select(c: &SelCase) -> CheckResult {
     }
     Ok(Info::new(is_nontrivial_values(&c.values))
         .class_if(c.stride != 1, "strided")
+        .class_if(n > 256, "long(>256)")
+        .class_if(n >= 1024, "long(>=1024)")
         .class_if(n <= 2, "len<=2"))
 }
 
@@ -316,6 +318,11 @@ pub fn check_bulk(c: &BulkCase) -> CheckResult {
     Ok(Info::new(n >= 2 && !c.indexes.is_empty())
         .class_if(repeats, "repeated-indexes")
         .class_if(c.indexes.windows(2).any(|w| w[0] > w[1]), "unsorted-indexes")
+        .class_if(n > 256, "long(>256)")
+        .class_if(n >= 1024, "long(>=1024)")
+        .class_if(n >= 2 && want.first() == Some(&0) && want.last() == Some(&(n - 1)), "both-extremes-requested")
+        .class_if(want.len() >= 32 && want[want.len() - 1] - want[0] == want.len() - 1, "consecutive-block(>=32)")
+        .class_if(want.len() >= 64, "distinct-indexes>=64")
         .class_if(c.stride != 1, "strided"))
 }
 
@@ -521,6 +528,132 @@ pub fn bulk_strategy(max_len: usize, oor_share: u8) -> impl Strategy<Value = Bul
             }
             BulkCase { values, indexes, stride, offset, pivots }
         })
+}
+
+/// Long arrays (hundreds to thousands of elements): lengths around powers of two and block
+/// sizes, few / many / no repeated values, monotone runs, the extremes at the ends.
+fn long_values_strategy(max_len: usize) -> impl Strategy<Value = Vec<i64>> {
+    let special: Vec<usize> = vec![257, 300, 511, 512, 513, 1000, 1023, 1024, 1025, 2000, 2047, 2048, 2049, 3000, 4095, 4096, 4097, 5000, 8191, 8192, 8193]
+        .into_iter()
+        .filter(|&n| n <= max_len)
+        .collect();
+    let len = prop_oneof![2 => proptest::sample::select(special), 3 => 257usize..=max_len];
+    (len, 0u8..9, any::<u64>()).prop_map(|(n, class, salt)| {
+        let mut s = salt | 1;
+        let mut next = move || {
+            // splitmix64 on a generated seed: the values are a pure function of the case
+            s = s.wrapping_add(0x9e37_79b9_7f4a_7c15);
+            let mut z = s;
+            z = (z ^ (z >> 30)).wrapping_mul(0xbf58_476d_1ce4_e5b9);
+            z = (z ^ (z >> 27)).wrapping_mul(0x94d0_49bb_1331_11eb);
+            z ^ (z >> 31)
+        };
+        let mut v: Vec<i64> = match class {
+            0 => (0..n).map(|_| (next() % 4) as i64).collect(),
+            1 => (0..n).map(|_| (next() % 40) as i64 - 20).collect(),
+            2 => (0..n).map(|_| (next() % (n as u64 / 4).max(2)) as i64).collect(),
+            3 => (0..n).map(|_| next() as i64).collect(),
+            4 => (0..n as i64).collect(),
+            5 => (0..n as i64).rev().collect(),
+            // a permutation of 0..n
+            6 | 7 => {
+                let mut p: Vec<i64> = (0..n as i64).collect();
+                for i in (1..n).rev() {
+                    let j = (next() % (i as u64 + 1)) as usize;
+                    p.swap(i, j);
+                }
+                p
+            }
+            // one value dominating
+            _ => (0..n).map(|_| if next() % 16 == 0 { (next() % 7) as i64 - 3 } else { 0 }).collect(),
+        };
+        // half of the cases: put the maximum / minimum at an end
+        match next() % 8 {
+            0 => {
+                let k = (0..n).max_by_key(|&k| v[k]).unwrap();
+                v.swap(0, k);
+            }
+            1 => {
+                let k = (0..n).min_by_key(|&k| v[k]).unwrap();
+                v.swap(n - 1, k);
+            }
+            2 => {
+                let k = (0..n).max_by_key(|&k| v[k]).unwrap();
+                v.swap(0, k);
+                let k = (0..n).min_by_key(|&k| v[k]).unwrap();
+                v.swap(n - 1, k);
+            }
+            3 => {
+                let k = (0..n).min_by_key(|&k| v[k]).unwrap();
+                v.swap(0, k);
+                let k = (0..n).max_by_key(|&k| v[k]).unwrap();
+                v.swap(n - 1, k);
+            }
+            _ => {}
+        }
+        v
+    })
+}
+
+/// Index lists for long arrays: a few scattered ranks, both extremes, consecutive blocks,
+/// long lists, every rank.
+pub fn long_indexes(n: usize, class: u8, ps: &[u16]) -> Vec<usize> {
+    let at = |p: u16| (p as usize * n) >> 16;
+    if n == 0 || ps.is_empty() {
+        return vec![];
+    }
+    match class % 8 {
+        0 => ps.iter().take(8).map(|&p| at(p)).collect(),
+        1 => {
+            let mut v = vec![0, n - 1];
+            v.extend(ps.iter().take(3).map(|&p| at(p)));
+            v
+        }
+        2 => vec![n - 1, 0],
+        // a consecutive block
+        3 | 4 => {
+            let start = at(ps[0]);
+            let len = 1 + (ps[ps.len() - 1] as usize % 200);
+            (start..(start + len).min(n)).collect()
+        }
+        // the largest / smallest k
+        5 => {
+            let len = 1 + (ps[0] as usize % 150);
+            if ps[ps.len() - 1] % 2 == 0 {
+                (n.saturating_sub(len)..n).collect()
+            } else {
+                (0..len.min(n)).collect()
+            }
+        }
+        // a long scattered list (unsorted, with repeats)
+        6 => ps.iter().map(|&p| at(p)).collect(),
+        _ => {
+            if n <= 1200 {
+                (0..n).rev().collect()
+            } else {
+                ps.iter().map(|&p| at(p)).collect()
+            }
+        }
+    }
+}
+
+pub fn sel_long_strategy(max_len: usize) -> impl Strategy<Value = SelCase> {
+    (long_values_strategy(max_len), any::<u16>(), 0u8..6, stride_strategy(), 0usize..3, pivots_strategy()).prop_map(|(values, p, edge, stride, offset, pivots)| {
+        let n = values.len();
+        let index = match edge {
+            0 => 0,
+            1 => n - 1,
+            _ => (p as usize * n) >> 16,
+        };
+        SelCase { values, index, stride, offset, pivots }
+    })
+}
+
+pub fn bulk_long_strategy(max_len: usize) -> impl Strategy<Value = BulkCase> {
+    (long_values_strategy(max_len), any::<u8>(), proptest::collection::vec(any::<u16>(), 1..300), stride_strategy(), 0usize..3, pivots_strategy()).prop_map(|(values, class, ps, stride, offset, pivots)| {
+        let indexes = long_indexes(values.len(), class, &ps);
+        BulkCase { values, indexes, stride, offset, pivots }
+    })
 }
 
 fn bins_index_strategy() -> impl Strategy<Value = BinsIndexCase> {
@@ -812,6 +945,9 @@ pub fn run_c02(ctx: &Ctx) {
     ctx.run_proptest("bulk", t.pick(20_000, 600_000), bulk_strategy(t.pick(80, 300), 0), &check_bulk);
     ctx.run_proptest("select-wide", t.pick(8_000, 200_000), sel_strategy(t.pick(60, 200), 0), &check_select_wide);
     ctx.run_proptest("bulk-wide", t.pick(8_000, 200_000), bulk_strategy(t.pick(60, 200), 0), &check_bulk_wide);
+    // long arrays: regimes a blocked / thresholded implementation only enters beyond a few hundred elements
+    ctx.run_proptest("select-long", t.pick(1_200, 40_000), sel_long_strategy(t.pick(5_000, 9_000)), &check_select);
+    ctx.run_proptest("bulk-long", t.pick(1_600, 60_000), bulk_long_strategy(t.pick(5_000, 9_000)), &check_bulk);
 }
 
 pub fn run_c16(ctx: &Ctx) {
@@ -852,6 +988,8 @@ pub fn replayers() -> Vec<(&'static str, ReplayFn)> {
         ("bins-index", |v| replay_with::<BinsIndexCase>(v, &check_bins_index)),
         ("select-wide", |v| replay_with::<SelCase>(v, &check_select_wide)),
         ("bulk-wide", |v| replay_with::<BulkCase>(v, &check_bulk_wide)),
+        ("select-long", |v| replay_with::<SelCase>(v, &check_select)),
+        ("bulk-long", |v| replay_with::<BulkCase>(v, &check_bulk)),
     ]
 }
 
